@@ -1021,10 +1021,9 @@ namespace occa {
         }
       }
 
-      // Default to #if false with error
+      // The caller decides how a malformed condition is handled
       if (exprError) {
-        pushStatus(ppStatus::ignoring |
-                   ppStatus::foundIf);
+        delete expr;
         return false;
       }
 
@@ -1078,6 +1077,9 @@ namespace occa {
 
       bool isTrue;
       if (!lineIsTrue(directive, isTrue)) {
+        // Default to #if false with error
+        pushStatus(ppStatus::ignoring |
+                   ppStatus::foundIf);
         return;
       }
 
@@ -1148,21 +1150,27 @@ namespace occa {
         return;
       }
 
-      // Make sure to test #elif expression is valid
+      // A group of this #if was already taken (or the whole #if is inside
+      //   a skipped group): the condition must not be evaluated
+      if (status & ppStatus::finishedIf) {
+        skipToNewline();
+        return;
+      }
+      if (status & ppStatus::reading) {
+        swapReadingStatus();
+        status |= ppStatus::finishedIf;
+        skipToNewline();
+        return;
+      }
+
+      // A malformed condition counts as false and, unlike in #if,
+      //   must not open a new nesting level
       bool isTrue;
       if (!lineIsTrue(directive, isTrue)) {
         return;
       }
 
-      // If we already finished, keep old state
-      if (status & ppStatus::finishedIf) {
-        return;
-      }
-
-      if (status & ppStatus::reading) {
-        swapReadingStatus();
-        status |= ppStatus::finishedIf;
-      } else if (isTrue) {
+      if (isTrue) {
         status = (ppStatus::foundIf |
                   ppStatus::reading);
       }
